@@ -171,6 +171,12 @@ class LangGen:
         if self.lid == 1301 and name in ("created", "si-expires") or self.lid == 1701 and name == "timestamp":
             return self.rng.choice(DATETIMES)
         r = self.rng.below(10) if forced is None else forced
+        if r == 14:
+            return base + "q"                      # the row's value followed by exactly one octet
+        if r == 15:
+            # a value that stops inside a LONGER value prefix of the same attribute name (longest-prefix tie)
+            longer = [x[1] for x in (self.attrs or []) if x[0] == name and x[1] and x[1].startswith(base) and len(x[1]) > len(base)]
+            return longer[0][:-1] if longer else base + "r"
         if r in (10, 11, 12, 13):
             # a CASE VARIANT of the row's enumerated value (must not be taken for the value itself), alone or followed
             # by a case variant of a value token
@@ -219,6 +225,22 @@ class LangGen:
             plan.append((row, 9))
         for k, row in enumerate(rows):
             if row[1]:
+                plan.append((row, 14))
+                plan.append((row, 15))
+        # attribute code page switches inside one element, under a tag of another page (attr and tag spaces are separate)
+        pages = sorted({r[2] for r in rows})
+        if len(pages) > 1:
+            byp = {pg: [r for r in rows if r[2] == pg] for pg in pages}
+            names = set()
+            mix = []
+            for pg in (pages[1], pages[0], pages[1], pages[0]):
+                for r in byp[pg]:
+                    if r[0] not in names:
+                        names.add(r[0]); mix.append((r[0], self.attr_value(r, shared, 1))); break
+            tagp = [t for t in self.tags if t[1] != 0] or self.tags
+            self.mixed_page_elts = [self.elt(tagp[0], [self.elt(self.tags[0], [], mix[:2])], mix), self.elt(self.tags[0], [], list(reversed(mix)))]
+        for k, row in enumerate(rows):
+            if row[1]:
                 plan.append((row, 10 + k % 4))
                 if len(rows) < 40:
                     plan.append((row, 10 + (k + 1) % 4))
@@ -237,6 +259,7 @@ class LangGen:
             used.add(row[0])
         if cur is not None:
             top.append(cur)
+        top += getattr(self, "mixed_page_elts", [])
         if self.lid == 1901:
             top.append(E("PARM", None, [("NAME", "ICON"), ("VALUE", ICON)], []))
             top.append(E("PARM", None, [("NAME", "NAME"), ("VALUE", ICON)], []))
@@ -245,6 +268,7 @@ class LangGen:
         # literal attribute, literal element, repeated attribute values
         t = self.tags[0]
         top.append(self.elt(t, [], [("zzunknown", shared[0]), ("zzother", shared[0])]))
+        top.append(self.elt(t, [], [("zzthree", "xyz"), ("zzthree2", "xyz"), ("zzfour", "xyzw"), ("zzfour2", "xyzw")]))
         top.append(E("zzliteral", None, [("zzunknown", "plain value")], [E("zzliteral", None, [], ["in a literal"])]))
         docs.append(self.root(top))
         return docs
@@ -257,7 +281,7 @@ class LangGen:
         pick = lambda k: ts[k % len(ts)]
         rep1, rep2 = "hello_world_text", "other string here"
         kids = []
-        texts = [rep1, rep2, rep1, "prefix " + rep1 + " suffix", rep2, "once only words", "words only twice", "ab", "abc", "abcd", "abcd",
+        texts = [rep1, rep2, rep1, "prefix " + rep1 + " suffix", rep2, "once only words", "words only twice", "ab", "abc", "abc", "abcd", "abcd", "wxy", "wxyz", "wxyz ", "wxyz ",
                  " unique padded %d " % self.rng.below(100), "\tunique tab padded\n", rep2 + rep1, rep1 + "x", "y" + rep2, rep1 + "z" + rep1]
         if d7:
             texts += ["  " + rep1 + " ", "  " + rep1 + " ", " padded twice ", " padded twice ", "tail_string", "tail_string"]
